@@ -10,6 +10,7 @@ special-use attributes, the maximum allowed input size, and helper
 functions for converting between IMAP flag names and MH sequence names.
 """
 
+import re
 from collections import defaultdict
 from enum import StrEnum
 
@@ -108,6 +109,11 @@ def flags_to_seqs(flags: list[str] | None) -> list[str]:
 
 ####################################################################
 #
+_KEYWORD_RE = re.compile(r"^[^\x00-\x20\x7f(){%*\"\\\]]+$")
+
+
+####################################################################
+#
 def flag_to_seq(flag: str) -> str:
     """Map a single IMAP flag name to its MH sequence name.
 
@@ -139,6 +145,13 @@ def flag_to_seq(flag: str) -> str:
     # first), taking the flags of every message in the folder with it.
     #
     if ":" in flag or not flag.isascii():
+        raise No(f"'{flag}' can not be used as a keyword on this server")
+
+    # A keyword is an atom. What the command parser lets through as one is
+    # more than what may be sent in a FLAGS list (`a]b`: the `]` ends a
+    # response code for the client that reads `* OK [PERMANENTFLAGS (..a]b..)]`)
+    #
+    if not _KEYWORD_RE.match(flag):
         raise No(f"'{flag}' can not be used as a keyword on this server")
     return flag
 
